@@ -86,7 +86,12 @@ func Harness_C20_roundtrip() {
 		}
 		raw := verifWireValue("value", true)
 		keys, raws = append(keys, k), append(raws, raw)
-		in = msgp.AppendString(in, verifFieldKeys[k])
+		// map keys may be encoded as str or (first entry) as bin: both are legal msgpack keys
+		if i == 0 && n <= 2 && zz.NondetBool("binKey") { // (3-entry maps, thorough only, stay within the path budget)
+			in = msgp.AppendBytes(in, []byte(verifFieldKeys[k]))
+		} else {
+			in = msgp.AppendString(in, verifFieldKeys[k])
+		}
 		in = append(in, raw...)
 	}
 	cfg := &config.MockConfig{TraceIdFieldNames: []string{"trace.trace_id"}, ParentIdFieldNames: []string{"trace.parent_id"},
